@@ -510,11 +510,67 @@ Proof.
   rewrite Hn. simpl. apply noerr_bind; auto. intros ys _. auto with c13.
 Qed.
 
+(* ---- generic: a pass that judges every entry on its own is a list homomorphism *)
+Lemma concat_pass_app {A} (one : A -> res (list cons * list msg)) l1 l2 :
+  concat_pass one (l1 ++ l2) =
+  (a <- concat_pass one l1 ;; b <- concat_pass one l2 ;; ROk (fst a ++ fst b, snd a ++ snd b)).
+Proof.
+  induction l1 as [|n r IH]; simpl.
+  - destruct (concat_pass one l2) as [[c m]| |]; reflexivity.
+  - destruct (one n) as [[c1 m1]| |]; simpl; try reflexivity.
+    rewrite IH. destruct (concat_pass one r) as [[c2 m2]| |]; simpl; try reflexivity.
+    destruct (concat_pass one l2) as [[c3 m3]| |]; simpl; try reflexivity.
+    rewrite !app_assoc. reflexivity.
+Qed.
+
+(* single fault, any length, any position: an entry whose own verdict is "no construct,
+   report rep" leaves exactly the constructs of the other entries, in order *)
+Lemma concat_pass_single_fault {A} (one : A -> res (list cons * list msg)) l1 bad l2 rep c1 m1 c2 m2 :
+  one bad = ROk ([], rep) ->
+  concat_pass one l1 = ROk (c1, m1) -> concat_pass one l2 = ROk (c2, m2) ->
+  concat_pass one (l1 ++ bad :: l2) = ROk (c1 ++ c2, m1 ++ rep ++ m2) /\
+  concat_pass one (l1 ++ l2) = ROk (c1 ++ c2, m1 ++ m2).
+Proof.
+  intros Hb H1 H2. split.
+  - rewrite concat_pass_app, H1. simpl. rewrite Hb, H2. simpl. reflexivity.
+  - rewrite concat_pass_app, H1, H2. reflexivity.
+Qed.
+
+Lemma concat_pass_unfaulted {A} (one : A -> res (list cons * list msg)) l1 good l2 cg mg c1 m1 c2 m2 :
+  one good = ROk (cg, mg) ->
+  concat_pass one l1 = ROk (c1, m1) -> concat_pass one l2 = ROk (c2, m2) ->
+  concat_pass one (l1 ++ good :: l2) = ROk (c1 ++ cg ++ c2, m1 ++ mg ++ m2).
+Proof.
+  intros Hg H1 H2. rewrite concat_pass_app, H1. simpl. rewrite Hg, H2. simpl. reflexivity.
+Qed.
+
+Lemma noerr_concat_pass {A} (one : A -> res (list cons * list msg)) l :
+  (forall x, noerr (one x)) -> noerr (concat_pass one l).
+Proof.
+  intros H. induction l as [|n r IH]; simpl; auto with c13.
+  apply noerr_bind; auto. intros a _. apply noerr_bind; auto. intros b _. auto with c13.
+Qed.
+
 Local Opaque check_cm_list.
+
+Lemma noerr_measure_one ds field kv : internal ds field = true -> noerr (measure_one ds field kv).
+Proof.
+  intros Hf. unfold measure_one. destruct (internal_ncdims ds field Hf) as [d ->]. simpl.
+  apply noerr_bind. { apply noerr_check_cm_list. }
+  intros [ok ms] E. destruct ok; auto with c13.
+  pose proof (check_cm_list_singletons _ _ _ _ _ E) as Hs. inversion Hs as [|? ? [n Hn] ?]; subst.
+  rewrite Hn. auto with c13.
+Qed.
 
 Lemma noerr_measure_pass ds field s : internal ds field = true -> noerr (measure_pass ds field s).
 Proof.
   intros Hf. unfold measure_pass. destruct (parse_x s) as [|p ps]; auto with c13.
+  apply noerr_concat_pass. intros kv. apply noerr_measure_one; assumption.
+Qed.
+
+Lemma noerr_measure_pass_head ds field s : internal ds field = true -> noerr (measure_pass_head ds field s).
+Proof.
+  intros Hf. unfold measure_pass_head. destruct (parse_x s) as [|p ps]; auto with c13.
   remember (p :: ps) as parsed eqn:Epp. clear Epp.
   destruct (internal_ncdims ds field Hf) as [d ->]. simpl.
   apply noerr_bind. { apply noerr_check_cm_list. }
@@ -524,6 +580,32 @@ Proof.
 Qed.
 
 Local Transparent check_cm_list.
+
+(* the verdict of one "measure: variable" entry (fix2-1) *)
+Lemma measure_one_missing ds field d k n :
+  ncdims ds field = ROk d -> internal ds n = false -> mem n (externals ds) = false ->
+  measure_one ds field (k, [n]) = ROk ([], [(n, WMeasure, RMissingExt)]).
+Proof.
+  intros Hd Hi He. unfold measure_one. rewrite Hd. simpl. rewrite Hi, He. reflexivity.
+Qed.
+
+Lemma measure_one_foreign ds field d k n dn :
+  ncdims ds field = ROk d -> internal ds n = true -> mem n (externals ds) = false ->
+  ncdims ds n = ROk dn -> dims_are_subset ds n dn d = ROk false ->
+  measure_one ds field (k, [n]) = ROk ([], [(n, WMeasure, RDims)]).
+Proof.
+  intros Hd Hi He Hn Hs. unfold measure_one. rewrite Hd. simpl. rewrite Hi, He. simpl.
+  rewrite Hn. simpl. rewrite Hs. reflexivity.
+Qed.
+
+Lemma measure_one_healthy ds field d k n dn :
+  ncdims ds field = ROk d -> internal ds n = true -> mem n (externals ds) = false ->
+  ncdims ds n = ROk dn -> dims_are_subset ds n dn d = ROk true ->
+  measure_one ds field (k, [n]) = ROk ([mkCons CMeasure n None], []).
+Proof.
+  intros Hd Hi He Hn Hs. unfold measure_one. rewrite Hd. simpl. rewrite Hi, He. simpl.
+  rewrite Hn. simpl. rewrite Hs. reflexivity.
+Qed.
 
 (* a name that cannot be found anywhere makes the verdict false and is reported *)
 Lemma check_cm_list_missing ds field parent parsed k n :
@@ -550,14 +632,14 @@ Qed.
 
 Local Opaque check_cm_list.
 
-(* Faithful statement for cell_measures: one name that cannot be found and NO cell
-   measure at all is created (the report names the culprit). *)
-Lemma measures_all_or_nothing ds field s k n cs ms :
+(* The code before fix2-1: one name that cannot be found and NO cell measure at all
+   is created (the report names the culprit). *)
+Lemma measures_all_or_nothing_head ds field s k n cs ms :
   In (k, [n]) (parse_x s) -> internal ds n = false -> mem n (externals ds) = false ->
-  measure_pass ds field s = ROk (cs, ms) ->
+  measure_pass_head ds field s = ROk (cs, ms) ->
   cs = [] /\ In (n, WMeasure, RMissingExt) ms.
 Proof.
-  intros Hin Hi He. unfold measure_pass.
+  intros Hin Hi He. unfold measure_pass_head.
   destruct (parse_x s) as [|p ps] eqn:Hp; [destruct Hin|].
   destruct (ncdims ds field) as [d| |]; simpl; try discriminate.
   destruct (check_cm_list ds field d (p :: ps)) as [[ok ms']| |] eqn:E; simpl; try discriminate.
@@ -567,24 +649,35 @@ Qed.
 
 Local Transparent check_cm_list.
 
-(* ... so "only the element that could not be mapped is left out" is false of the reader
-   when an attribute names several variables: the healthy sibling is dropped too *)
+(* "only the element that could not be mapped is left out": false of the reader before
+   fix2-1 (the healthy sibling is dropped too), true after it *)
 Definition ds_two_measures : ads :=
   mkAds [ mkVar "area" ["x"] false false []; mkVar "vol" ["x"] false false [];
           mkVar "q" ["x"] false false [] ] [].
 
-Lemma measures_sibling_refuted :
-  measure_pass ds_two_measures "q" "area: area volume: vol" =
+Lemma measures_sibling_head_refuted :
+  measure_pass_head ds_two_measures "q" "area: area volume: vol" =
     ROk ([mkCons CMeasure "area" None; mkCons CMeasure "vol" None], []) /\
+  measure_pass_head ds_two_measures "q" "area: nope_missing volume: vol" =
+    ROk ([], [("nope_missing", WMeasure, RMissingExt)]) /\
   measure_pass ds_two_measures "q" "area: nope_missing volume: vol" =
-    ROk ([], [("nope_missing", WMeasure, RMissingExt)]).
-Proof. split; vm_compute; reflexivity. Qed.
+    ROk ([mkCons CMeasure "vol" None], [("nope_missing", WMeasure, RMissingExt)]).
+Proof. splits; vm_compute; reflexivity. Qed.
 
-Lemma ancillaries_sibling_refuted :
-  anc_pass ds_two_measures "q" "area vol" =
+Lemma ancillaries_sibling_head_refuted :
+  anc_pass_head ds_two_measures "q" "area vol" =
     ROk ([mkCons CFieldAnc "area" None; mkCons CFieldAnc "vol" None], []) /\
-  anc_pass ds_two_measures "q" "nope_missing vol" = ROk ([], [("nope_missing", WAnc, RMissing)]).
-Proof. split; vm_compute; reflexivity. Qed.
+  anc_pass_head ds_two_measures "q" "nope_missing vol" = ROk ([], [("nope_missing", WAnc, RMissing)]) /\
+  anc_pass ds_two_measures "q" "nope_missing vol" =
+    ROk ([mkCons CFieldAnc "vol" None], [("nope_missing", WAnc, RMissing)]).
+Proof. splits; vm_compute; reflexivity. Qed.
+
+(* non-vacuity of the single-fault statement for cell measures *)
+Lemma measures_single_fault_example :
+  measure_one ds_two_measures "q" ("area", ["nope_missing"]) = ROk ([], [("nope_missing", WMeasure, RMissingExt)]) /\
+  measure_entries ds_two_measures "q" [("area", ["area"])] = ROk ([mkCons CMeasure "area" None], []) /\
+  measure_entries ds_two_measures "q" [("volume", ["vol"])] = ROk ([mkCons CMeasure "vol" None], []).
+Proof. splits; vm_compute; reflexivity. Qed.
 
 (* ------------------------------------------------------------------ ancillary variables *)
 Lemma noerr_check_anc_list ds parent toks : forall ok ms, noerr (check_anc_list ds parent toks ok ms).
@@ -598,9 +691,22 @@ Qed.
 
 Local Opaque check_anc_list.
 
+Lemma noerr_anc_one ds field n : internal ds field = true -> noerr (anc_one ds field n).
+Proof.
+  intros Hf. unfold anc_one. destruct (internal_ncdims ds field Hf) as [d ->]. simpl.
+  apply noerr_bind. { apply noerr_check_anc_list. }
+  intros [ok ms] _. destruct ok; auto with c13.
+Qed.
+
 Lemma noerr_anc_pass ds field s : internal ds field = true -> noerr (anc_pass ds field s).
 Proof.
   intros Hf. unfold anc_pass. destruct (split_ws s) as [|t ts]; auto with c13.
+  apply noerr_concat_pass. intros n. apply noerr_anc_one; assumption.
+Qed.
+
+Lemma noerr_anc_pass_head ds field s : internal ds field = true -> noerr (anc_pass_head ds field s).
+Proof.
+  intros Hf. unfold anc_pass_head. destruct (split_ws s) as [|t ts]; auto with c13.
   destruct (internal_ncdims ds field Hf) as [d ->]. simpl.
   apply noerr_bind. { apply noerr_check_anc_list. }
   intros [ok ms] _. destruct ok; auto with c13.
@@ -608,18 +714,165 @@ Qed.
 
 Local Transparent check_anc_list.
 
-(* ------------------------------------------------------------------ the whole field, the whole read *)
-Lemma noerr_ft_ancillaries ds fdims ct bt : forall todo,
-  terms_internal ds todo -> noerr (ft_ancillaries ds fdims ct bt todo).
+(* the verdict of one name of ancillary_variables (fix2-1) *)
+Lemma anc_one_missing ds field d n :
+  ncdims ds field = ROk d -> internal ds n = false ->
+  anc_one ds field n = ROk ([], [(n, WAnc, RMissing)]).
+Proof. intros Hd Hi. unfold anc_one. rewrite Hd. simpl. rewrite Hi. reflexivity. Qed.
+
+Lemma anc_one_foreign ds field d n dn :
+  ncdims ds field = ROk d -> internal ds n = true -> ncdims ds n = ROk dn ->
+  dims_are_subset ds n dn d = ROk false ->
+  anc_one ds field n = ROk ([], [(n, WAnc, RDims)]).
+Proof.
+  intros Hd Hi Hn Hs. unfold anc_one. rewrite Hd. simpl. rewrite Hi. simpl. rewrite Hn. simpl.
+  rewrite Hs. reflexivity.
+Qed.
+
+Lemma anc_one_healthy ds field d n dn :
+  ncdims ds field = ROk d -> internal ds n = true -> ncdims ds n = ROk dn ->
+  dims_are_subset ds n dn d = ROk true ->
+  anc_one ds field n = ROk ([mkCons CFieldAnc n None], []).
+Proof.
+  intros Hd Hi Hn Hs. unfold anc_one. rewrite Hd. simpl. rewrite Hi. simpl. rewrite Hn. simpl.
+  rewrite Hs. reflexivity.
+Qed.
+
+(* ------------------------------------------------------------------ formula terms: one term at a time *)
+Lemma noerr_ft_ancillaries ds fdims bt : forall todo,
+  terms_internal ds todo -> noerr (ft_ancillaries ds fdims bt todo).
 Proof.
   induction todo as [|[term [n|]] r IH]; simpl; intros Ht; auto with c13.
   - inversion Ht; subst. simpl in *. destruct (internal_ncdims ds n H1) as [d ->]. simpl.
     apply noerr_bind. { apply noerr_create_bounded; assumption. }
     intros cm _. apply noerr_bind. { apply IH; assumption. }
-    intros [[cs ok] ms] _. destruct (Nat.eqb _ _); auto with c13.
-  - inversion Ht; subst. apply IH; assumption.
+    intros [[cs ts] ms] _. destruct (Nat.eqb _ _); auto with c13.
+  - inversion Ht; subst. apply noerr_bind. { apply IH; assumption. }
+    intros [[cs ts] ms] _. auto with c13.
 Qed.
 
+(* the domain ancillaries of a parametric coordinate are made term by term (fix2-2) *)
+Lemma ft_ancillaries_app ds fd bt t1 t2 :
+  ft_ancillaries ds fd bt (t1 ++ t2) =
+  (a <- ft_ancillaries ds fd bt t1 ;; b <- ft_ancillaries ds fd bt t2 ;;
+   ROk (fst (fst a) ++ fst (fst b), snd (fst a) ++ snd (fst b), snd a ++ snd b)).
+Proof.
+  induction t1 as [|[term [n|]] r IH]; simpl.
+  - destruct (ft_ancillaries ds fd bt t2) as [[[c t] m]| |]; reflexivity.
+  - destruct (ncdims ds n) as [d| |]; simpl; try reflexivity.
+    match goal with |- context [create_bounded ds CDomAnc n ?B] =>
+      destruct (create_bounded ds CDomAnc n B) as [[c0 m0]| |] end; simpl; try reflexivity.
+    rewrite IH. destruct (ft_ancillaries ds fd bt r) as [[[c1 ts1] m1]| |]; simpl; try reflexivity.
+    destruct (ft_ancillaries ds fd bt t2) as [[[c2 ts2] m2]| |]; simpl.
+    + destruct (Nat.eqb _ _); simpl; rewrite <- ?app_assoc; reflexivity.
+    + destruct (Nat.eqb _ _); reflexivity.
+    + destruct (Nat.eqb _ _); reflexivity.
+  - rewrite IH. destruct (ft_ancillaries ds fd bt r) as [[[c1 ts1] m1]| |]; simpl; try reflexivity.
+    destruct (ft_ancillaries ds fd bt t2) as [[[c2 ts2] m2]| |]; reflexivity.
+Qed.
+
+(* a term whose variable spans a dimension that the data variable does not span: no
+   construct, the term is kept without value, the report names the variable *)
+Lemma ft_term_foreign ds fd bt term n d cm :
+  ncdims ds n = ROk d ->
+  create_bounded ds CDomAnc n
+    (match get_term term bt with Some (Some b) => if String.eqb b n then None else Some b | _ => None end) = ROk cm ->
+  Nat.eqb (length (filter (fun x => mem x fd) d)) (length d) = false ->
+  ft_ancillaries ds fd bt [(term, Some n)] = ROk ([], [(term, None)], snd cm ++ [(n, WFt, RDims)]).
+Proof.
+  intros Hd Hc Hl. simpl. rewrite Hd. simpl. rewrite Hc. simpl. rewrite Hl. reflexivity.
+Qed.
+
+Lemma ft_term_healthy ds fd bt term n d cm :
+  ncdims ds n = ROk d ->
+  create_bounded ds CDomAnc n
+    (match get_term term bt with Some (Some b) => if String.eqb b n then None else Some b | _ => None end) = ROk cm ->
+  Nat.eqb (length (filter (fun x => mem x fd) d)) (length d) = true ->
+  ft_ancillaries ds fd bt [(term, Some n)] = ROk ([fst cm], [(term, Some n)], snd cm).
+Proof.
+  intros Hd Hc Hl. simpl. rewrite Hd. simpl. rewrite Hc. simpl. rewrite Hl. rewrite app_nil_r. reflexivity.
+Qed.
+
+(* single fault in formula_terms, any number of terms, any position: the other terms'
+   domain ancillaries are created, in order, and stay in the coordinate reference *)
+Lemma formula_terms_single_fault ds fd bt t1 term bad t2 rep c1 ts1 m1 c2 ts2 m2 :
+  ft_ancillaries ds fd bt [(term, bad)] = ROk ([], [(term, None)], rep) ->
+  ft_ancillaries ds fd bt t1 = ROk (c1, ts1, m1) -> ft_ancillaries ds fd bt t2 = ROk (c2, ts2, m2) ->
+  ft_ancillaries ds fd bt (t1 ++ (term, bad) :: t2) =
+    ROk (c1 ++ c2, ts1 ++ (term, None) :: ts2, m1 ++ rep ++ m2).
+Proof.
+  intros Hb H1 H2. change ((term, bad) :: t2) with ([(term, bad)] ++ t2).
+  rewrite ft_ancillaries_app, H1. cbn [bind]. rewrite ft_ancillaries_app, Hb, H2. reflexivity.
+Qed.
+
+Lemma ft_missing_term ds fd bt term : ft_ancillaries ds fd bt [(term, None)] = ROk ([], [(term, None)], []).
+Proof. reflexivity. Qed.
+
+Definition field_of (r : res (list fskel)) (n : string) : option fskel :=
+  match r with ROk fs => find (fun f => String.eqb (f_ncvar f) n) fs | _ => None end.
+
+Definition ds_ft : ads :=
+  mkAds [ mkVar "z" ["z"] false false [("formula_terms", "a: a b: other orog: orog")];
+          mkVar "a" ["z"] false false []; mkVar "orog" ["x"] false false [];
+          mkVar "other" ["y"] false false []; mkVar "x" ["x"] false false [];
+          mkVar "ta" ["z"; "x"] false false [] ] [].
+
+(* before fix2-2 the healthy terms were dropped with the broken one *)
+Lemma formula_terms_sibling_head_refuted :
+  ft_ancillaries_head ds_ft ["z"; "x"] [] [("a", Some "a"); ("b", Some "other"); ("orog", Some "orog")] =
+    ROk ([mkCons CDomAnc "a" None; mkCons CDomAnc "orog" None], false, [("other", WFt, RDims)]) /\
+  ft_ancillaries ds_ft ["z"; "x"] [] [("a", Some "a"); ("b", Some "other"); ("orog", Some "orog")] =
+    ROk ([mkCons CDomAnc "a" None; mkCons CDomAnc "orog" None],
+         [("a", Some "a"); ("b", None); ("orog", Some "orog")], [("other", WFt, RDims)]) /\
+  option_map (fun f => (f_cons f, f_crefs f)) (field_of (read_skel_old ds_ft) "ta") =
+    Some ([mkCons CDim "z" None; mkCons CDim "x" None], []) /\
+  option_map (fun f => (f_cons f, f_crefs f)) (field_of (read_skel ds_ft) "ta") =
+    Some ([mkCons CDim "z" None; mkCons CDim "x" None; mkCons CDomAnc "a" None; mkCons CDomAnc "orog" None],
+          [mkCref None (Some ["z"]) [("a", Some "a"); ("b", None); ("orog", Some "orog")]]).
+Proof. splits; vm_compute; reflexivity. Qed.
+
+(* ------------------------------------------------------------------ grid_mapping: all or nothing *)
+Lemma check_gm_coords_missing ds c : forall cs,
+  In c cs -> internal ds c = false ->
+  fst (check_gm_coords ds cs) = false /\ In (c, WGmCoord, RMissing) (snd (check_gm_coords ds cs)).
+Proof.
+  induction cs as [|x r IH]; intros Hin Hi; [destruct Hin|]. simpl.
+  destruct (check_gm_coords ds r) as [ok ms] eqn:E. destruct Hin as [->|Hin].
+  - rewrite Hi. simpl. auto.
+  - destruct (IH Hin Hi) as [H1 H2]. simpl in *. subst ok.
+    destruct (internal ds x); simpl; auto.
+Qed.
+
+(* _check_grid_mapping gives one verdict for the attribute: a grid mapping variable or a
+   coordinate variable that is not in the file, anywhere in the attribute, and the verdict is
+   False - no coordinate reference is made from the attribute - and the report names it *)
+Lemma check_gm_list_missing ds : forall parsed gm coords,
+  In (gm, coords) parsed ->
+  (internal ds gm = false -> fst (check_gm_list ds parsed) = false /\
+                             In (gm, WGm, RMissing) (snd (check_gm_list ds parsed))) /\
+  (forall c, In c coords -> internal ds c = false ->
+     fst (check_gm_list ds parsed) = false /\ In (c, WGmCoord, RMissing) (snd (check_gm_list ds parsed))).
+Proof.
+  induction parsed as [|[g cs] r IH]; intros gm coords Hin; [destruct Hin|]. simpl.
+  destruct (check_gm_coords ds cs) as [ok2 ms2] eqn:E2.
+  destruct (check_gm_list ds r) as [ok3 ms3] eqn:E3.
+  destruct Hin as [Heq|Hin].
+  - inversion Heq; subst. split.
+    + intros Hi. rewrite Hi. simpl. split; [reflexivity|left; reflexivity].
+    + intros c Hc Hi. destruct (check_gm_coords_missing ds c coords Hc Hi) as [H1 H2].
+      rewrite E2 in H1, H2. simpl in *. subst ok2.
+      destruct (internal ds gm); simpl; split; auto using andb_false_r;
+        rewrite ?in_app_iff; simpl; auto.
+  - destruct (IH gm coords Hin) as [IH1 IH2]. simpl in *. split.
+    + intros Hi. destruct (IH1 Hi) as [H1 H2]. subst ok3.
+      destruct (internal ds g); simpl; rewrite ?andb_false_r; split; auto;
+        rewrite ?in_app_iff; simpl; auto.
+    + intros c Hc Hi. destruct (IH2 c Hc Hi) as [H1 H2]. subst ok3.
+      destruct (internal ds g); simpl; rewrite ?andb_false_r; split; auto;
+        rewrite ?in_app_iff; simpl; auto.
+Qed.
+
+(* ------------------------------------------------------------------ the whole field, the whole read *)
 Lemma noerr_first_dim ds n : internal ds n = true -> noerr (first_dim false ds n).
 Proof.
   intros H. unfold first_dim. destruct (internal_var_dims ds n H) as [d ->]. simpl.
@@ -637,29 +890,19 @@ Proof.
   intros z _. apply noerr_bind. { apply check_formula_terms_total; assumption. }
   intros [[ct bt] ms] E. apply noerr_bind.
   { apply noerr_ft_ancillaries. eapply check_formula_terms_internal; eauto. }
-  intros [[cs ok] ms2] _. apply noerr_bind. { apply IH; assumption. }
-  intros [[cs' crs'] ms'] _. destruct ok; auto with c13.
+  intros [[cs ts] ms2] _. apply noerr_bind. { apply IH; assumption. }
+  intros [[cs' crs'] ms'] _. auto with c13.
 Qed.
 
 Lemma noerr_opt_pass {A} o (d : A) f : (forall s, noerr (f s)) -> noerr (opt_pass o d f).
 Proof. intros H. destruct o; simpl; auto with c13. Qed.
 
-(* _create_field_or_domain with the repairs never raises, for any variable of any dataset *)
-Lemma field_skel_total ds v : In v (a_vars ds) -> noerr (field_skel false ds v).
+Lemma field_rest_total ds v fdims coords :
+  internal ds (v_name v) = true -> Forall (fun c => internal ds (c_ncvar c) = true) coords ->
+  noerr (field_rest false ds v fdims coords).
 Proof.
-  intros Hin. pose proof (in_internal ds v Hin) as Hf. unfold field_skel.
-  destruct (attr v "dimensions"); auto with c13.
-  destruct (internal_ncdims ds (v_name v) Hf) as [fdims ->]. simpl.
-  apply noerr_bind. { apply noerr_dim_pass. }
-  intros [dc dm] Ed. apply noerr_bind.
-  { apply noerr_opt_pass. intros s. apply noerr_aux_pass. }
-  intros [ac am] Ea. simpl.
-  apply noerr_bind.
-  { apply noerr_ft_pass; [assumption|]. apply Forall_app. split.
-    - eapply dim_pass_internal; eauto.
-    - destruct (attr v "coordinates"); simpl in Ea.
-      + eapply aux_pass_internal; eauto.
-      + inversion Ea; constructor. }
+  intros Hf Hc. unfold field_rest.
+  apply noerr_bind. { apply noerr_ft_pass; assumption. }
   intros [[ancs ftrefs] ftms] _.
   lazymatch goal with |- noerr (match ?X with _ => _ end) => destruct X as [[gmrefs gmvars] gmms] end.
   apply noerr_bind. { apply noerr_opt_pass. intros s. apply noerr_measure_pass; assumption. }
@@ -668,10 +911,43 @@ Proof.
   intros np _. auto with c13.
 Qed.
 
-Lemma all_fields_total ds vs : (forall v, In v vs -> In v (a_vars ds)) -> noerr (all_fields false ds vs).
+(* _create_field_or_domain with the repairs never raises, for any variable of any dataset *)
+Lemma field_skel_total_internal ds v : internal ds (v_name v) = true -> noerr (field_skel false ds v).
+Proof.
+  intros Hf. unfold field_skel.
+  destruct (attr v "dimensions"); auto with c13.
+  destruct (internal_ncdims ds (v_name v) Hf) as [fdims ->]. simpl.
+  apply noerr_bind. { apply noerr_dim_pass. }
+  intros [dc dm] Ed. apply noerr_bind.
+  { apply noerr_opt_pass. intros s. apply noerr_aux_pass. }
+  intros [ac am] Ea. simpl.
+  apply noerr_bind.
+  { apply field_rest_total; [assumption|]. apply Forall_app. split.
+    - eapply dim_pass_internal; eauto.
+    - destruct (attr v "coordinates"); simpl in Ea.
+      + eapply aux_pass_internal; eauto.
+      + inversion Ea; constructor. }
+  intros [[[[cons crefs] meths] ms] refs] _. auto with c13.
+Qed.
+
+Lemma field_skel_total ds v : In v (a_vars ds) -> noerr (field_skel false ds v).
+Proof. intros Hin. apply field_skel_total_internal, in_internal, Hin. Qed.
+
+(* the lookups of read are made in norm ds: the same variables, each with the attributes
+   that are read through a reference *)
+Lemma find_var_strip vs n : find_var (map strip vs) n = option_map strip (find_var vs n).
+Proof.
+  induction vs as [|x r IH]; simpl; [reflexivity|].
+  destruct (String.eqb (v_name x) n); [reflexivity|exact IH].
+Qed.
+
+Lemma internal_norm ds n : internal (norm ds) n = internal ds n.
+Proof. unfold internal, norm; simpl. rewrite find_var_strip. destruct (find_var (a_vars ds) n); reflexivity. Qed.
+
+Lemma all_fields_total ds vs : (forall v, In v vs -> internal ds (v_name v) = true) -> noerr (all_fields false ds vs).
 Proof.
   induction vs as [|v r IH]; simpl; intros H; auto with c13.
-  apply noerr_bind. { apply field_skel_total. apply H. left; reflexivity. }
+  apply noerr_bind. { apply field_skel_total_internal. apply H. left; reflexivity. }
   intros o _. apply noerr_bind. { apply IH. intros w Hw. apply H. right; assumption. }
   intros rest _. auto with c13.
 Qed.
@@ -681,8 +957,228 @@ Qed.
 Lemma read_total ds : noerr (read_skel ds).
 Proof.
   unfold read_skel, read_skel_gen. apply noerr_bind.
-  - apply all_fields_total. auto.
+  - apply all_fields_total. intros v Hv. rewrite internal_norm. apply in_internal, Hv.
   - intros fs _. auto with c13.
+Qed.
+
+(* ------------------------------------------------------------------ edits of one attribute of one variable *)
+Lemma filter_lookup_remove a l : lookup_attr a = false ->
+  filter (fun kv : string * string => lookup_attr (fst kv)) (remove_key a l) =
+  filter (fun kv : string * string => lookup_attr (fst kv)) l.
+Proof.
+  intros Ha. unfold remove_key. induction l as [|[k x] r IH]; simpl; [reflexivity|].
+  destruct (String.eqb k a) eqn:E; simpl.
+  - apply String.eqb_eq in E; subst. rewrite Ha. exact IH.
+  - destruct (lookup_attr k); [rewrite IH|]; auto.
+Qed.
+
+Lemma strip_set_attr a val v : lookup_attr a = false -> strip (set_attr a val v) = strip v.
+Proof.
+  intros Ha. unfold strip, set_attr; simpl. f_equal.
+  destruct val; simpl; [rewrite Ha|]; apply filter_lookup_remove; assumption.
+Qed.
+
+(* an edit of coordinates / grid_mapping / cell_measures / cell_methods / ancillary_variables
+   of a variable changes nothing of what the lookups see *)
+Lemma norm_edit ds vn a val : lookup_attr a = false -> norm (edit ds vn a val) = norm ds.
+Proof.
+  intros Ha. unfold norm, edit; simpl. f_equal. rewrite map_map. apply map_ext.
+  intros v. destruct (String.eqb (v_name v) vn); auto using strip_set_attr.
+Qed.
+
+Lemma assoc_remove_key a a' l : String.eqb a' a = false -> assoc a' (remove_key a l) = assoc a' l.
+Proof.
+  intros Hne. unfold remove_key. induction l as [|[k x] r IH]; simpl; [reflexivity|].
+  destruct (String.eqb k a) eqn:E; simpl.
+  - apply String.eqb_eq in E; subst. rewrite Hne. exact IH.
+  - destruct (String.eqb a' k); [reflexivity|exact IH].
+Qed.
+
+Lemma attr_set_attr_other a a' val v : String.eqb a' a = false -> attr (set_attr a val v) a' = attr v a'.
+Proof.
+  intros Hne. unfold attr, set_attr; simpl. destruct val; simpl; [rewrite Hne|]; apply assoc_remove_key; assumption.
+Qed.
+
+Lemma attr_set_attr_same a s v : attr (set_attr a (Some s) v) a = Some s.
+Proof. unfold attr, set_attr; simpl. rewrite String.eqb_refl. reflexivity. Qed.
+
+(* ------------------------------------------------------------------ relating two reads *)
+Definition res_rel {A} (Q : A -> A -> Prop) (r r' : res A) : Prop :=
+  match r, r' with
+  | ROk x, ROk y => Q x y
+  | RErr e, RErr e' => e = e'
+  | ROut, ROut => True
+  | _, _ => False
+  end.
+
+Lemma res_rel_refl {A} (Q : A -> A -> Prop) r : (forall x, Q x x) -> res_rel Q r r.
+Proof. intros H. destruct r; simpl; auto. Qed.
+
+(* the two fields are the same apart from their reports *)
+Definition same_but_report (f f' : fskel) : Prop :=
+  f_ncvar f = f_ncvar f' /\ f_cons f = f_cons f' /\ f_crefs f = f_crefs f' /\
+  f_methods f = f_methods f' /\ f_refs f = f_refs f'.
+
+Definition opt_rel {A} (Q : A -> A -> Prop) (o o' : option A) : Prop :=
+  match o, o' with Some x, Some y => Q x y | None, None => True | _, _ => False end.
+
+Definition upd (vn a : string) (val : option string) (v : var) : var :=
+  if String.eqb (v_name v) vn then set_attr a val v else v.
+
+(* if the field made from the edited variable is related by R in the two edits, the
+   lists of all fields are related: R at that variable, equal elsewhere *)
+Lemma all_fields_rel nds vn a val1 val2 (R : fskel -> fskel -> Prop) : forall vs,
+  (forall v, In v vs -> v_name v = vn ->
+     res_rel (opt_rel R) (field_skel false nds (set_attr a val1 v)) (field_skel false nds (set_attr a val2 v))) ->
+  res_rel (Forall2 (fun f f' => R f f' \/ f = f'))
+    (all_fields false nds (map (upd vn a val1) vs)) (all_fields false nds (map (upd vn a val2) vs)).
+Proof.
+  induction vs as [|v r IH]; intros H; simpl; [constructor|].
+  assert (IH' := IH (fun w Hw => H w (or_intror Hw))). clear IH.
+  unfold upd at 1 3. destruct (String.eqb (v_name v) vn) eqn:E.
+  - apply String.eqb_eq in E. pose proof (H v (or_introl eq_refl) E) as Hv.
+    destruct (field_skel false nds (set_attr a val1 v)) as [o| |],
+             (field_skel false nds (set_attr a val2 v)) as [o'| |]; simpl in Hv |- *; try contradiction; auto.
+    destruct (all_fields false nds (map (upd vn a val1) r)) as [fs| |],
+             (all_fields false nds (map (upd vn a val2) r)) as [fs'| |]; simpl in IH' |- *; try contradiction; auto.
+    destruct o, o'; simpl in Hv; try contradiction; auto.
+  - destruct (field_skel false nds v) as [o| |]; simpl; auto.
+    destruct (all_fields false nds (map (upd vn a val1) r)) as [fs| |],
+             (all_fields false nds (map (upd vn a val2) r)) as [fs'| |]; simpl in IH' |- *; try contradiction; auto.
+    destruct o; auto.
+Qed.
+
+Section Select.
+  Variable Q : fskel -> fskel -> Prop.
+  Hypothesis HQ : forall f f', Q f f' -> f_ncvar f = f_ncvar f' /\ f_refs f = f_refs f'.
+
+  Lemma names_rel fs fs' : Forall2 Q fs fs' -> map f_ncvar fs = map f_ncvar fs'.
+  Proof. induction 1 as [|x y l l' Hxy _ IH]; simpl; [reflexivity|]. destruct (HQ _ _ Hxy) as [-> _]. rewrite IH. reflexivity. Qed.
+
+  Lemma referencers_rel fs fs' n : Forall2 Q fs fs' -> referencers fs n = referencers fs' n.
+  Proof.
+    unfold referencers. induction 1 as [|x y l l' Hxy _ IH]; simpl; [reflexivity|].
+    destruct (HQ _ _ Hxy) as [Hn Hr]. rewrite <- Hr. destruct (mem n (f_refs x)); simpl; [rewrite Hn, IH|]; auto.
+  Qed.
+
+  Lemma reinstate_rel fs fs' : Forall2 Q fs fs' -> forall todo referenced,
+    reinstate fs todo referenced = reinstate fs' todo referenced.
+  Proof.
+    intros H. induction todo as [|n r IH]; intros referenced; simpl; [reflexivity|].
+    rewrite (referencers_rel fs fs' n H). destruct (forallb _ _); apply IH.
+  Qed.
+
+  Lemma Forall2_filter (p p' : fskel -> bool) fs fs' :
+    Forall2 Q fs fs' -> (forall f f', Q f f' -> p f = p' f') -> Forall2 Q (filter p fs) (filter p' fs').
+  Proof.
+    intros H Hp. induction H as [|x y l l' Hxy _ IH]; simpl; [constructor|].
+    rewrite (Hp _ _ Hxy). destruct (p' y); [constructor|]; assumption.
+  Qed.
+
+  (* the fields that read returns are chosen by name and references only *)
+  Lemma select_fields_rel fs fs' : Forall2 Q fs fs' -> Forall2 Q (select_fields fs) (select_fields fs').
+  Proof.
+    intros H. unfold select_fields.
+    rewrite <- (names_rel _ _ H).
+    assert (E : filter (fun n => negb (Nat.eqb (length (referencers fs n)) 0)) (map f_ncvar fs) =
+                filter (fun n => negb (Nat.eqb (length (referencers fs' n)) 0)) (map f_ncvar fs)).
+    { apply filter_ext. intros n. rewrite (referencers_rel fs fs' n H). reflexivity. }
+    rewrite <- E. rewrite <- (reinstate_rel fs fs' H).
+    apply Forall2_filter; [assumption|]. intros f f' Hff. destruct (HQ _ _ Hff) as [-> _]. reflexivity.
+  Qed.
+End Select.
+
+(* ------------------------------------------------------------------ coordinates: the whole read *)
+Lemma aux_pass_fault ds dims l1 bad l2 rep : aux_one ds dims bad = ROk ([], rep) ->
+  res_rel (fun x y => fst x = fst y /\ exists m1 m2, snd y = m1 ++ m2 /\ snd x = m1 ++ rep ++ m2)
+    (aux_pass ds dims (l1 ++ bad :: l2)) (aux_pass ds dims (l1 ++ l2)).
+Proof.
+  intros Hb. rewrite !aux_pass_app.
+  destruct (aux_pass ds dims l1) as [[c1 m1]| |]; simpl; auto. rewrite Hb. simpl.
+  destruct (aux_pass ds dims l2) as [[c2 m2]| |]; simpl; auto. split; [reflexivity|]. exists m1, m2. auto.
+Qed.
+
+Lemma field_rest_set_attr strict ds a x y v fdims coords :
+  String.eqb "grid_mapping" a = false -> String.eqb "cell_measures" a = false ->
+  String.eqb "cell_methods" a = false -> String.eqb "ancillary_variables" a = false ->
+  field_rest strict ds (set_attr a x v) fdims coords = field_rest strict ds (set_attr a y v) fdims coords.
+Proof.
+  intros H1 H2 H3 H4. unfold field_rest.
+  rewrite !(attr_set_attr_other a "grid_mapping") by assumption.
+  rewrite !(attr_set_attr_other a "cell_measures") by assumption.
+  rewrite !(attr_set_attr_other a "cell_methods") by assumption.
+  rewrite !(attr_set_attr_other a "ancillary_variables") by assumption.
+  reflexivity.
+Qed.
+
+Definition fault_rel (rep : list msg) (f' f : fskel) : Prop :=
+  same_but_report f' f /\ exists m1 m2, f_report f = m1 ++ m2 /\ f_report f' = m1 ++ rep ++ m2.
+
+(* the field of the variable whose coordinates attribute holds the broken token *)
+Lemma field_skel_coordinates_fault nds v l1 bad l2 s s' rep :
+  split_ws s' = l1 ++ bad :: l2 -> split_ws s = l1 ++ l2 ->
+  (forall fdims, ncdims nds (v_name v) = ROk fdims -> aux_one nds fdims bad = ROk ([], rep)) ->
+  res_rel (opt_rel (fault_rel rep))
+    (field_skel false nds (set_attr "coordinates" (Some s') v))
+    (field_skel false nds (set_attr "coordinates" (Some s) v)).
+Proof.
+  intros Hs' Hs Hbad. unfold field_skel.
+  rewrite !(attr_set_attr_other "coordinates" "dimensions") by reflexivity.
+  rewrite !attr_set_attr_same.
+  change (v_name (set_attr "coordinates" (Some s') v)) with (v_name v).
+  change (v_name (set_attr "coordinates" (Some s) v)) with (v_name v).
+  destruct (attr v "dimensions"); cbn [res_rel opt_rel]; auto.
+  destruct (ncdims nds (v_name v)) as [fdims| |] eqn:Ef; cbn [bind res_rel]; auto.
+  destruct (dim_pass nds fdims) as [[dc dm]| |]; cbn [bind res_rel opt_pass fst snd]; auto.
+  rewrite Hs', Hs.
+  pose proof (aux_pass_fault nds fdims l1 bad l2 rep (Hbad fdims eq_refl)) as Ha.
+  destruct (aux_pass nds fdims (l1 ++ bad :: l2)) as [[c m]| |],
+           (aux_pass nds fdims (l1 ++ l2)) as [[c' m']| |]; simpl in Ha |- *; try contradiction; auto.
+  destruct Ha as [Hc (m1 & m2 & Hm' & Hm)]. simpl in *. subst c' m m'.
+  rewrite (field_rest_set_attr false nds "coordinates" (Some s') (Some s)) by reflexivity.
+  destruct (field_rest false nds (set_attr "coordinates" (Some s) v) fdims (dc ++ c))
+    as [[[[[cons crefs] meths] ms] refs]| |]; simpl; auto.
+  split. { repeat split. }
+  exists (dm ++ m1), (m2 ++ ms). simpl. rewrite <- !app_assoc. auto.
+Qed.
+
+(* THE WHOLE READ.  One token of the coordinates attribute of a variable vn replaced by a
+   name that cannot be mapped (its verdict: no construct, report rep), against the same
+   file with the token removed: the read gives the same outcome class; the same list of
+   fields is returned (also the field of `bad` itself, when it is a data variable); every
+   field is identical except the one of vn, which has the same constructs, coordinate
+   references, cell methods and references and whose report is the other's with rep inserted. *)
+Lemma read_coordinates_single_fault ds vn l1 bad l2 s s' rep :
+  split_ws s' = l1 ++ bad :: l2 -> split_ws s = l1 ++ l2 ->
+  (forall fdims, ncdims (norm ds) vn = ROk fdims -> aux_one (norm ds) fdims bad = ROk ([], rep)) ->
+  res_rel (Forall2 (fun f' f => fault_rel rep f' f \/ f' = f))
+    (read_skel (edit ds vn "coordinates" (Some s'))) (read_skel (edit ds vn "coordinates" (Some s))).
+Proof.
+  intros Hs' Hs Hbad. unfold read_skel, read_skel_gen.
+  rewrite !norm_edit by reflexivity. unfold edit; simpl.
+  pose proof (all_fields_rel (norm ds) vn "coordinates" (Some s') (Some s) (fault_rel rep) (a_vars ds)) as H.
+  unfold upd in H.
+  match type of H with ?P -> _ => assert (HP : P) end.
+  { intros v _ Hn. apply field_skel_coordinates_fault with (l1 := l1) (bad := bad) (l2 := l2); auto.
+    rewrite Hn. exact Hbad. }
+  specialize (H HP). clear HP.
+  destruct (all_fields false (norm ds) (map (fun v => if String.eqb (v_name v) vn then set_attr "coordinates" (Some s') v else v) (a_vars ds))) as [fs'| |],
+           (all_fields false (norm ds) (map (fun v => if String.eqb (v_name v) vn then set_attr "coordinates" (Some s) v else v) (a_vars ds))) as [fs| |];
+    simpl in H |- *; try contradiction; auto.
+  apply select_fields_rel; [|assumption].
+  intros f f' [[(Hn & _ & _ & _ & Hr) _]| ->]; auto.
+Qed.
+
+(* ... the two kinds of broken token meet the hypothesis *)
+Lemma read_coordinates_missing_name ds vn l1 bad l2 s s' :
+  split_ws s' = l1 ++ bad :: l2 -> split_ws s = l1 ++ l2 ->
+  internal ds bad = false ->
+  (forall fdims, ncdims (norm ds) vn = ROk fdims -> mem bad fdims = false) ->
+  res_rel (Forall2 (fun f' f => fault_rel [(bad, WAux, RMissing); (bad, WAux, RMissing)] f' f \/ f' = f))
+    (read_skel (edit ds vn "coordinates" (Some s'))) (read_skel (edit ds vn "coordinates" (Some s))).
+Proof.
+  intros Hs' Hs Hi Hm. apply read_coordinates_single_fault with (l1 := l1) (bad := bad) (l2 := l2); auto.
+  intros fdims Hf. apply aux_one_missing; [rewrite internal_norm; assumption|auto].
 Qed.
 
 (* ------------------------------------------------------------------ open / close *)
@@ -770,3 +1266,16 @@ Lemma bounds_missing_example :
   exists v, get_var ds_example "lat2" = ROk v /\ bounds_name v None = Some "nope_missing" /\
             str_empty "nope_missing" = false /\ internal ds_example "nope_missing" = false.
 Proof. eexists. splits; vm_compute; reflexivity. Qed.
+
+(* non-vacuity, and the case where the replacement is itself a data variable of the file:
+   q's coordinates "t other lat2", where other(y) is an unrelated data variable *)
+Lemma read_coordinates_single_fault_example :
+  let ds := edit ds_example "q" "coordinates" (Some "t lat2") in
+  aux_one (norm ds) ["x"] "other" = ROk ([], [("other", WAux, RDims)]) /\
+  ncdims (norm ds) "q" = ROk ["x"] /\
+  map f_ncvar (match read_skel (edit ds "q" "coordinates" (Some "t other lat2")) with ROk fs => fs | _ => [] end)
+    = ["other"; "q"] /\
+  map f_ncvar (match read_skel (edit ds "q" "coordinates" (Some "t lat2")) with ROk fs => fs | _ => [] end)
+    = ["other"; "q"].
+Proof. cbv zeta. splits; vm_compute; reflexivity. Qed.
+
